@@ -195,6 +195,12 @@ def eval_case(ctx, case):
             importlib.invalidate_caches()
             kw["myst_heading_slug_func"] = f"{pkg}.helpers.slugs." + func["name"]
             ctx.count("slug_func_from_nested_unimported_module")
+        elif func["how"] == "front-matter":
+            # configured per file, as a dotted path in the document's own front matter (over a different project-wide function)
+            text = "---\nmyst:\n  heading_slug_func: mv.slugfuncs." + func["name"] + "\n---\n\n" + text
+            detail["text"] = text
+            kw["myst_heading_slug_func"] = slugfuncs.constant if func["name"] != "constant" else slugfuncs.shout
+            ctx.count("slug_func_from_front_matter")
         else:
             kw["myst_heading_slug_func"] = getattr(slugfuncs, func["name"]) if func["how"] == "callable" else "mv.slugfuncs." + func["name"]
     src = os.path.join(TMP, "doc.md")
@@ -395,7 +401,7 @@ def run_shard(ctx):
             heads.append([lvl, R.choice(pool) if R.random() < 0.7 else rand_title(R), R.choice(["top", "top", "top", "quote", "list", "setext"])])
         case = {"kind": "rand", "heads": heads, "depth": R.choice([0, 1, 2, 2, 3, 4, 5, 6, 7])}
         if R.random() < 0.2:
-            case["func"] = {"name": R.choice(["shout", "constant", "boom", "boom_some"]), "how": R.choice(["callable", "dotted", "nested"])}
+            case["func"] = {"name": R.choice(["shout", "constant", "boom", "boom_some"]), "how": R.choice(["callable", "dotted", "nested", "front-matter"])}
         eval_case(ctx, case)
         ctx.case(("rand", repr(case)), sum(1 for h in heads if h[0] <= case["depth"]) >= 2)
         if i == 0:
